@@ -4,7 +4,7 @@ P=$1; shift
 for k in 1 2; do
   d=/tmp/seed_out/$P/${P}_$k
   [ -f $d/patch.diff ] || continue
-  /venv/bin/python /verif/tools/seed_eval.py $d ${P%[bc]} "$@" 2>/dev/null > /tmp/seed_out/$P/eval_$k.json
+  /venv/bin/python /verif/tools/seed_eval.py $d ${P%[bcd]} "$@" 2>/dev/null > /tmp/seed_out/$P/eval_$k.json
   /venv/bin/python -c "
 import json,sys; d=json.load(open('/tmp/seed_out/$P/eval_$k.json')); print(d['seed'].split('/')[-1], 'demo', d['demo_unpatched_rc'], d.get('demo_patched_rc'), 'baseline', d.get('baseline_rc'), {k:(v['rc'],v['wall_s'],[l[:160] for l in v['lines'][:2]]) for k,v in d.get('checks',{}).items()})" 2>/dev/null
 done
